@@ -308,6 +308,10 @@ def explore(ctx):
             # a kerning pair present in the last master only (with layout merged per master fontTools' varLib
             # merger needs every pair in the default master: "Base master not found" -- environment limit)
             masters[-1]["kerning"][(names[2], names[0])] = Fr(-33)
+            # ... and a glyph/glyph exception INSIDE a class pair, listed by one master only (the last, the default or a middle
+            # one): where it is not listed the pair has the master's class value
+            masters[[-1, 0, 1 % n][(i // 2) % 3]]["kerning"][(names[0], names[2])] = Fr(-9)
+            ctx.klass("exception inside a class pair listed by one master only")
             if len(names) > 3 and names[3] != "acutecomb":
                 # ... and a kerning GROUP that only the last master defines, with a class pair using it
                 masters[-1]["groups"] = dict(masters[-1]["groups"], **{"public.kern1.X": [names[3]]})
